@@ -68,7 +68,12 @@ def run(prop, tier, seed, replay=None):
         for name in ["core", "q", "sz"]:       # sz: map geometry (many growth steps, events across chunk and page boundaries)
             up = S.universe_path(name)
             u = json.load(open(up))
-            jobs.append((name, up, u, histories(u, rnd, n_h, ln)))
+            hs0 = histories(u, rnd, n_h, ln)
+            if name == "sz":
+                # two ephemeral events of one author and kind back to back (nothing is indexed, the offsets stay readable)
+                S_ = lambda i: {"k": "store", "a": i}
+                hs0 += [[S_(22), S_(28), S_(1), S_(22)], [S_(1), S_(28), S_(22), S_(28), S_(2)], [S_(22), S_(28)]]
+            jobs.append((name, up, u, hs0))
         for j in range(n_u):
             name = "r%d" % (seed * 1000 + 500 + j)
             up = S.universe_path(name)
